@@ -267,6 +267,8 @@ func (h c6Hook) Run(e *zerolog.Event, l zerolog.Level, msg string) {
 	e.Str("hook", h.name)
 }
 
+func c6id(c *c6Chain) string { return c.id }
+
 type c6RejectAll struct{}
 
 func (c6RejectAll) Sample(zerolog.Level) bool { return false }
@@ -359,6 +361,7 @@ func (r *c6Run) start(c *c6Chain) *zerolog.Event {
 		return zlog.WithLevel(c.level)
 	}
 	lg := r.loggers[c.logger]
+	c0 := c
 	if c.viaCtx {
 		zsim.Probe("logger_from_context")
 		ctx := r.ctxs[c.logger]
@@ -383,6 +386,10 @@ func (r *c6Run) start(c *c6Chain) *zerolog.Event {
 		lg = lg.Level(zerolog.TraceLevel)
 	case 4:
 		lg = lg.Output(r.curDest)
+	case 6:
+		// every task re-targets its own copy and extends that copy's context in place
+		lg = lg.Output(r.curDest)
+		lg.UpdateContext(func(c zerolog.Context) zerolog.Context { return c.Str("upd", c6id(c0)) })
 	}
 	if c.derive != 0 {
 		zsim.Probe("derived_in_task")
@@ -661,7 +668,7 @@ func (c06World) Run(prop string, ch *zsim.Choices, trace bool) *RunResult {
 				if c.logger < len(r.loggers) {
 					c.sampler = r.samplerOf[c.logger]
 					if ch.Chance(1, 4) {
-						c.derive = 1 + ch.Intn(4)
+						c.derive = []int{1, 2, 3, 4, 6}[ch.Intn(5)]
 					}
 					if ch.Chance(1, 4) {
 						c.viaCtx = true
